@@ -106,6 +106,29 @@ def run(run):
         adaptors = set()
         for x in r:
             mentions(x, lambda z: z[0] == "call" and re.search(r"Iterator::(filter|skip|take|skip_while|take_while|step_by)$", z[1]) and adaptors.add(z[1]) and False)
+        # inside the per-entry closure nothing but the cell-by-cell comparison decides (a pre-filter on sizes has
+        # to agree with the catalogue's own notion of width for all 22 drawings, flush-left ones included)
+        for fn in sorted(q for q in prog.bodies if re.search(r"circle_map::endorse_\w+_span$", q)):
+            for q in prog.closures_of(fn):
+                if q.count("{closure") != 1:
+                    continue
+                qb = prog.bodies[q]
+                qex = Expr(prog, q)
+                if not any(Program.callee_name(t).endswith("circle_map::is_subset_of") for _, t in prog.calls(q)):
+                    continue
+                nsw = 0
+                for blk in qb["blocks"]:
+                    sw = blk["term"]
+                    if sw["k"] != "switch" or blk.get("cleanup"):
+                        continue
+                    nsw += 1
+                    cond = qex.operand(sw["on"])
+                    if not mentions(cond, lambda z: z[0] == "call" and z[1].endswith("circle_map::is_subset_of")):
+                        run.bad("C13.T2", "catalogue-entry-prefiltered/%s" % short(fn), where(sw),
+                                "%s rejects a catalogue entry on `%s` before comparing its cells: an exact catalogue drawing is no longer guaranteed to match its own entry" % (
+                                    short(fn), expr_str(strip(cond))[:120]))
+                if nsw:
+                    run.ok("C13.T2", "%s: only the outcome of is_subset_of decides per catalogue entry (%d branch)" % (short(fn), nsw), where(qb))
         if adaptors:
             run.bad("C13.T2", "catalogue-entries-skipped", where(prog.bodies[ecs[0]]), "endorse_circle_span does not try every catalogue entry: %s" % sorted(short(a) for a in adaptors))
         else:
